@@ -41,6 +41,10 @@ def _parse_command_line(cli_args = None):
 def _create_override_tuple(key, has_value = True):
   # TODO: Error handling for malformed options
   section,key = key.split(":", 1)
+  if section == "Table-Form" and ":" in key.split("=", 1)[0]:
+    # The names of table form sections themselves contain a colon: [Table-Form:NAME]
+    name, key = key.split(":", 1)
+    section = "{}:{}".format(section, name)
   if has_value:
     key, value = key.split("=", 1)
   else:
